@@ -98,7 +98,9 @@ func (s *poisonSnapshot) NewIterator(prefix []byte, ub bool) (db.Iterator, error
 	return &poisonIter{Iterator: it}, nil
 }
 
-func (p *poisonStore) NewSnapshot() db.Snapshot { return &poisonSnapshot{p.KeyValueStore.NewSnapshot()} }
+func (p *poisonStore) NewSnapshot() db.Snapshot {
+	return &poisonSnapshot{p.KeyValueStore.NewSnapshot()}
+}
 
 type poisonBatch struct{ db.IndexedBatch }
 
